@@ -65,10 +65,13 @@ def run_case(cs):
     area = os.path.join(d, "area")
     root = os.path.join(area, world.root_name(rng, "root"))
     dest = os.path.join(area, "dest")
-    skel = rng.choice([[], [], ["K"], ["K", "K/L"], ["K", "K/L", "K/L/M"], ["A", "B"]])
+    skel = rng.choice([[], [], ["K"], ["K", "K/L"], ["K", "K/L", "K/L/M"], ["A", "B"], ["A", "A_proxy"], ["A", "A 2/M"]])
     # the folders that carry nested histories get names from several classes (hidden, blanks, non-ASCII, dots)
     ren = {n: rng.choice([n, n, "." + n.lower(), n + " x", n + "\u00e4", n + ".", n + "._" + n]) for n in ["K", "L", "M", "A", "B"]}
-    skel = ["/".join(ren[c] for c in s.split("/")) for s in skel]
+    if all(c in ren for s in skel for c in s.split("/")):
+        skel = ["/".join(ren[c] for c in s.split("/")) for s in skel]
+    else:
+        cs.count("scenarios_with_prefix_named_sibling_histories")
     tree = {s: None for s in skel}
     tree["plain"] = None
     for s in [""] + list(tree):
